@@ -193,12 +193,12 @@ def main():
     build()
     jobs = registry.REG[prop][tier] if tier in registry.REG[prop] else registry.REG[prop]["quick"]
     extra = getattr(registry, "EXTRA", {}).get(prop)
-    # The thorough tier is scaled to a wall-clock budget (VERIF_THOROUGH_MIN minutes per property, default 30):
+    # The thorough tier is scaled to a wall-clock budget (VERIF_THOROUGH_MIN minutes per property, default 20):
     # every job keeps its shape (sizes, parameters), only the time it may spend exploring shrinks, never below the
     # 20 s floor.  Jobs that close earlier stop earlier; jobs cut short are reported non-exhaustive.
     budget_scale = 1.0
     if tier == "thorough":
-        cap_min = float(os.environ.get("VERIF_THOROUGH_MIN", "30"))
+        cap_min = float(os.environ.get("VERIF_THOROUGH_MIN", "20"))
         est_min = sum(j.get("secs", 60) * j.get("jobs", 1) for j in jobs) / CORES / 60.0
         if est_min > cap_min:
             budget_scale = cap_min / est_min
